@@ -80,6 +80,10 @@ Report(prop, what) ==
 Check(prop, what, cond) == cond \/ Report(prop, what)
 
 O == Trace[l-1]          \* the line consumed by the last step (valid when chk.kind # "none")
+\* an observed error class the specification does not know (a renamed or new error type) is "some failure":
+\* it never counts as a wrong class
+Unknown == chk.obsst # "ok" /\ chk.obsst # "panic" /\ chk.obsst \notin KnownClasses
+ObsIs(cls) == chk.obsst = cls \/ Unknown
 IsSend == chk.kind = "send"
 Fixed  == IsSend /\ ~chk.st.all
 SpecOk == chk.sp.err = ""
@@ -139,7 +143,7 @@ C03_ExactOrFail ==
   /\ Check("C03", "failed although the sources can supply the amount",
            (Fixed /\ SpecOk /\ ~chk.huge) => ObsOk)
   /\ Check("C03", "succeeded although the sources cannot supply the amount",
-           (Fixed /\ chk.sp.err = E_MissingFunds /\ ~chk.huge) => chk.obsst = E_MissingFunds)
+           (Fixed /\ chk.sp.err = E_MissingFunds /\ ~chk.huge) => ObsIs(E_MissingFunds))
   /\ Check("C03", "insufficient-funds error although the funds are there",
            (Fixed /\ chk.obsst = E_MissingFunds /\ ~chk.huge) => chk.sp.err = E_MissingFunds)
   /\ Check("C03", "postings do not add up to the amount minus kept",
@@ -156,7 +160,7 @@ C04_Debits ==
            SendOk => \A a \in Names(chk.obs, 1) \cup PairNames(chk.sp.d.snd) : SumWhere(chk.obs, 1, a) = SndDebits(chk.sp.d.snd, a))
   /\ Check("C04", "send-all source shape accepted/rejected wrongly",
            (IsSend /\ chk.st.all /\ ~chk.huge) =>
-              /\ (chk.sp.err \in {E_UnbInSendAll, E_AllotInSendAll} => chk.obsst = chk.sp.err)
+              /\ (chk.sp.err \in {E_UnbInSendAll, E_AllotInSendAll} => ObsIs(chk.sp.err))
               /\ (chk.obsst \in {E_UnbInSendAll, E_AllotInSendAll} => chk.sp.err = chk.obsst))
   /\ Check("C04", "spurious failure / success", (IsSend /\ ~chk.huge /\ chk.sp.err \in {"", E_MissingFunds}) => (ObsOk <=> SpecOk))
   /\ Check("C04", "huge amount", ~chk.huge)
@@ -177,7 +181,7 @@ C06_Shares ==
   /\ Check("C06", "destination shares differ", SendOk => \A a \in (Names(chk.obs, 2) \cup PairNames(chk.sp.d.rcv)) \ {KEPT} : SumWhere(chk.obs, 2, a) = RcvCredits(chk.sp.d.rcv, a))
   /\ Check("C06", "shares do not add up", SendOk => SumAmt(chk.obs) + KeptOf(chk.sp.d.rcv) = Need)
   /\ Check("C06", "allotment sum accepted/rejected wrongly",
-           (IsSend /\ ~chk.huge) => ((chk.sp.err = E_AllotSum) <=> (chk.obsst = E_AllotSum)))
+           (IsSend /\ ~chk.huge) => ((chk.sp.err = E_AllotSum => ObsIs(E_AllotSum)) /\ (chk.obsst = E_AllotSum => chk.sp.err = E_AllotSum)))
   /\ Check("C06", "spurious failure", (IsSend /\ ~chk.huge /\ chk.sp.err = "") => ObsOk)
   /\ Check("C06", "huge amount", ~chk.huge)
 
@@ -201,7 +205,7 @@ Meta_Final ==
 C08_SaveStep ==
   /\ Check("C08", "save produced postings", chk.kind = "save" => chk.obs = <<>>)
   /\ Check("C08", "negative save accepted / non-negative save rejected",
-           (chk.kind = "save" /\ chk.nxerr \in {"", E_NegAmount}) => ((chk.obsst = E_NegAmount) <=> (chk.nxerr = E_NegAmount)))
+           (chk.kind = "save" /\ chk.nxerr \in {"", E_NegAmount}) => ((chk.nxerr = E_NegAmount => ObsIs(E_NegAmount)) /\ (chk.obsst = E_NegAmount => chk.nxerr = E_NegAmount)))
 
 \* ---- never a panic, atomic failure (oracle-free part of C12)
 C12_NoPanic ==
